@@ -106,7 +106,7 @@ def main():
         else:
             shutil.copy(p, dst)
     json.dump({"breaks": prop, "summary": meta.get("summary", ""), "needs": meta.get("needs", ""), "files": meta.get("files", []),
-               "author_claims": meta.get("verified", {}), "confirmed_by_us": {k: res.get(k) for k in ["demo_passes_without", "patch_applies", "compiles", "suite_passes", "demo_fails_with_patch", "confirmed"]},
+               "author_claims": meta.get("author_claims", meta.get("verified", {})), "confirmed_by_us": {k: res.get(k) for k in ["demo_passes_without", "patch_applies", "compiles", "suite_passes", "demo_fails_with_patch", "confirmed"]},
                "what_we_ran": "scratch worktree: demo.sh without patch, git apply, go build ./..., go test of touched packages + internal/cli + pkg/build, demo.sh with patch; then the patch applied to a second scratch worktree of /repo and ./check run against it (VERIF_REPO), worktree removed afterwards",
                "check_results": res["checks"]}, open(os.path.join(dst, "meta.json"), "w"), indent=1)
     print(json.dumps({k: v for k, v in res.items() if k not in ("suite_output", "demo_output_with_patch")}, indent=1)[:3000])
